@@ -63,6 +63,13 @@ def run(ctx):
             p.update(new_sample_thresh=rng.choice([1, 2, 5]), delta=rng.choice([0.05, 0.3]), window_size_thresh=rng.choice([3, 6]))
         acc = 0.9
         xs = []
+        if i % 4 == 1:
+            # a large minimum window with frequent checks and sharp early changes of accuracy: cuts are due while the window is still
+            # below window_size_thresh but far above subwindow_size_thresh - each parameter must reach ADWIN as it was given
+            p.update(window_size_thresh=rng.choice([30, 60]), new_sample_thresh=rng.choice([1, 2]), subwindow_size_thresh=rng.choice([1, 3]),
+                     delta=rng.choice([0.3, 0.5]))
+            while len(xs) < ln:
+                xs += [1.0] * rng.randint(8, 16) + [0.0] * rng.randint(6, 14)
         while len(xs) < ln:
             acc = rng.uniform(0.1, 0.95)
             xs += [1.0 if rng.random() < acc else 0.0 for _ in range(rng.randint(20, 150))]
